@@ -1350,7 +1350,8 @@ theorem stepRun_InvB {cfg : Cfg} {s : St} (a : InvA cfg s) (r : InvR s) (i : Inv
     · rename_i u hp
       have hnc := not_closer_of_prog i0 (show s0.prog t ≠ .inClose by rw [hp]; simp)
       split
-      · have i1 : InvB ({ s0 with rcvBusy := false } : St) := InvB.of_bcore (s := s0) rfl i0
+      · have i1 : InvB ({ s0 with vres := none, rcvBusy := false, gone := s0.gone ++ s0.vres.toList.map (fun n => (n, false)) } : St) :=
+          InvB.of_bcore (s := s0) rfl i0
         exact (i1.emit (o := .ret u .eoq)).finish t hnc
       · have i1 : InvB ({ s0 with vres := none, rcvBusy := false, gone := s0.gone ++ s0.vres.toList.map (fun n => (n, false)) } : St) :=
           InvB.of_bcore (s := s0) rfl i0
@@ -1359,7 +1360,8 @@ theorem stepRun_InvB {cfg : Cfg} {s : St} (a : InvA cfg s) (r : InvR s) (i : Inv
       have htu : t = .U u := allowed_loginWait (by rw [hp] at htyp; exact htyp)
       have hnc := not_closer_of_prog i0 (show s0.prog t ≠ .inClose by rw [hp]; simp)
       split
-      · have i1 : InvB ({ s0 with rcvBusy := false } : St) := InvB.of_bcore (s := s0) rfl i0
+      · have i1 : InvB ({ s0 with vres := none, rcvBusy := false, gone := s0.gone ++ s0.vres.toList.map (fun n => (n, false)) } : St) :=
+          InvB.of_bcore (s := s0) rfl i0
         exact (i1.emit (o := .ret u .refused)).finish t hnc
       · have i1 : InvB ({ s0 with vres := none, rcvBusy := false, gone := s0.gone ++ s0.vres.toList.map (fun n => (n, false)) } : St) :=
           InvB.of_bcore (s := s0) rfl i0
